@@ -12,7 +12,7 @@ import corr  # noqa
 import efcommon as E  # noqa
 from lib import f32, f2h, h2f  # noqa
 
-MODULES = ["InovesaModel.Props.C06", "InovesaModel.Props.TieDrift", "InovesaModel.Props.TieEF", "InovesaModel.Props.TiePhysics"]
+MODULES = ["InovesaModel.Props.C06", "InovesaModel.Props.TieDrift", "InovesaModel.Props.TieEF", "InovesaModel.Props.TiePhysics", "InovesaModel.Props.TieWake"]
 LEVEL = "proof"
 
 
